@@ -105,6 +105,41 @@ func genTwinBook(r *rand.Rand, allowKnown bool) twinBook {
 		if r.Intn(6) == 0 && gs.vkind == "" {
 			rows = append(rows, make([]string, len(names)))
 		}
+		// an ignored column at the end: it has a name ("Remark") but no type — the XLSX type row is then shorter than
+		// the name row (trailing blank cells are not stored), the CSV type row is not
+		if r.Intn(5) == 0 && gs.vkind != "" {
+			withParam := r.Intn(2) == 0 // … right after a one-element horizontal list (its layout is decided by a look-ahead)
+			for i := range rows {
+				row := append([]string{}, rows[i]...)
+				for len(row) < len(names) {
+					row = append(row, "")
+				}
+				switch i {
+				case 0:
+					if withParam {
+						row = append(row, "ParamZz1")
+					}
+					row = append(row, "Remark")
+				case 1:
+					if withParam {
+						row = append(row, "[]int32")
+					}
+					row = append(row, "")
+				case 2:
+					if withParam {
+						row = append(row, "")
+					}
+					row = append(row, "")
+				default:
+					if withParam {
+						row = append(row, strconv.Itoa(i))
+					}
+					row = append(row, "r"+strconv.Itoa(i))
+				}
+				rows[i] = row
+			}
+			names = rows[0]
+		}
 		// AdjacentKey (blank key cells take the key of the line above), with trailing blank lines in the CSV twin
 		if r.Intn(5) == 0 {
 			meta["AdjacentKey"] = "true"
